@@ -8,6 +8,7 @@ mod verif_kani_weekday {
 //@@COMMON@@
     use xs::*;
 
+    // fns: Weekday::succ, Weekday::pred
     #[kani::proof]
     fn vk_weekday_cycle() {
         let n: u8 = kani::any();
@@ -19,6 +20,7 @@ mod verif_kani_weekday {
         assert!(w.succ().pred() == w && w.pred().succ() == w, "succ/pred mutually inverse");
     }
 
+    // fns: Weekday::num_days_from_monday, Weekday::number_from_monday, Weekday::num_days_from_sunday, Weekday::number_from_sunday, Weekday::days_since
     #[kani::proof]
     fn vk_weekday_numbering() {
         let n: u8 = kani::any();
@@ -34,6 +36,7 @@ mod verif_kani_weekday {
         assert!(w.days_since(o) == (7 + n as u32 - m as u32) % 7, "days_since is the cyclic distance");
     }
 
+    // fns: TryFrom<u8> for Weekday
     #[kani::proof]
     fn vk_weekday_try_from_u8() {
         let v: u8 = kani::any();
@@ -44,6 +47,7 @@ mod verif_kani_weekday {
         }
     }
 
+    // fns: FromPrimitive for Weekday (from_i64, from_u64 + provided methods)
     #[kani::proof]
     fn vk_weekday_from_primitive() {
         let i: i64 = kani::any();
@@ -65,6 +69,7 @@ mod verif_kani_weekday {
     }
 
     // bounded: every ASCII string of at most 12 bytes
+    // fns: FromStr for Weekday (bounded)
     #[kani::proof]
     #[kani::unwind(14)]
     fn vk_weekday_from_str_bounded12() {
